@@ -1016,7 +1016,17 @@ func execSeek(id string, s *SeekCase) {
 	if len(g.BlobModes) == 0 {
 		g.BlobModes = []fr.BodyMode{{}}
 	}
-	rc, err := repo.Fetch(ctx, od(d))
+	// the reader comes from Fetch or (odd content length) from blob FetchReference: both wrap
+	// the body in the same readSeekCloser with the blob's size
+	var rc io.ReadCloser
+	var err error
+	if len(s.Content)%2 == 1 {
+		_, rc, err = repo.Blobs().(registry.ReferenceFetcher).FetchReference(ctx, d.DG)
+		run.Count("seek:via-fetchreference")
+	} else {
+		rc, err = repo.Fetch(ctx, od(d))
+		run.Count("seek:via-fetch")
+	}
 	if err != nil {
 		panic(err)
 	}
